@@ -22,13 +22,65 @@ theorem r2dLoop_cons (p : Rat) (ps : List Rat) (u cum : Rat) (idx : Nat) :
   · rw [if_pos h, if_pos ((hit_iff _ _).2 h)]
   · rw [if_neg h, if_neg (fun hh => h ((hit_iff _ _).1 hh))]
 
+theorem fallKeep_iff (p : Rat) : QGen.C14.fallKeep p = true ↔ 0 < p := by simp [QGen.C14.fallKeep]
+
 theorem randomNumberToData_def (probs : List Rat) (u : Rat) :
     randomNumberToData probs u = match r2dLoop probs u 0 0 with
       | some i => (i : Int)
-      | none => (probs.length : Int) - 1 := by
+      | none => fallResult probs := by
   unfold randomNumberToData
   rw [cumStart_eq]
-  cases r2dLoop probs u 0 0 <;> simp [fallThrough_eq]
+  cases r2dLoop probs u 0 0 <;> rfl
+
+theorem lastKeep_none_iff (ps : List Rat) (idx : Nat) : lastKeep ps idx = none ↔ ∀ p ∈ ps, ¬ 0 < p := by
+  induction ps generalizing idx with
+  | nil => simp [lastKeep]
+  | cons p t ih =>
+    simp only [lastKeep, List.mem_cons, forall_eq_or_imp]
+    cases hrec : lastKeep t (idx + 1) with
+    | some j =>
+      simp only [reduceCtorEq, false_iff, not_and]
+      intro _ hall
+      rw [(ih (idx + 1)).2 hall] at hrec; cases hrec
+    | none =>
+      have hall := (ih (idx + 1)).1 hrec
+      by_cases hp : QGen.C14.fallKeep p = true
+      · simp only [hp, if_true, reduceCtorEq, false_iff, not_and]
+        intro h; exact absurd ((fallKeep_iff p).1 hp) h
+      · simp only [hp, Bool.false_eq_true, if_false, true_iff]
+        exact ⟨fun h => hp ((fallKeep_iff p).2 h), hall⟩
+
+/-- the backward loop finds a position inside the list whose entry is positive, and nothing positive lies behind it -/
+theorem lastKeep_some (ps : List Rat) (idx j : Nat) (h : lastKeep ps idx = some j) :
+    ∃ k, j = idx + k ∧ ∃ hk : k < ps.length, 0 < ps[k] ∧ ∀ k' (hk' : k' < ps.length), k < k' → ¬ 0 < ps[k'] := by
+  induction ps generalizing idx with
+  | nil => simp [lastKeep] at h
+  | cons p t ih =>
+    simp only [lastKeep] at h
+    cases hrec : lastKeep t (idx + 1) with
+    | some j' =>
+      rw [hrec] at h; injection h with h; subst h
+      obtain ⟨k, hk, hlt, hpos, hall⟩ := ih (idx + 1) hrec
+      refine ⟨k + 1, by omega, by simpa using hlt, by simpa using hpos, ?_⟩
+      intro k' hk' hgt
+      cases k' with
+      | zero => omega
+      | succ k'' => simpa using hall k'' (by simpa using hk') (by omega)
+    | none =>
+      rw [hrec] at h
+      simp only at h
+      split at h
+      · rename_i hp
+        injection h with h; subst h
+        refine ⟨0, rfl, by simp, by simpa using (fallKeep_iff p).1 hp, ?_⟩
+        intro k' hk' hgt
+        cases k' with
+        | zero => omega
+        | succ k'' =>
+          have hk2 : k'' < t.length := by simpa using hk'
+          have hmem : t[k''] ∈ t := List.getElem_mem hk2
+          simpa using (lastKeep_none_iff t (idx + 1)).1 hrec _ hmem
+      · cases h
 
 theorem toStream_none {G : Type} (P : PRNG G) : toStream P .none = .glob := rfl
 theorem toStream_int {G : Type} (P : PRNG G) (s : Int) : toStream P (.int s) = .fresh (P.seed s) := rfl
